@@ -431,7 +431,9 @@ Qed.
 (** with a fault the bound is lost - as C20 says ([created <= 1 + fsaves + crashes + deletes]): the
     first instance's Store of the registration fails after its newAccount succeeded; the second
     instance registers again *)
-Definition two_acct : list tcfg := [TCfg (PAcct false) 7 0 3 0 false false false false; TCfg (PAcct false) 7 0 3 0 false false false false].
+Definition two_acct : list tcfg :=
+  let c := {| c_prog := PAcct false; c_lk := 7; c_pk := 0; c_vk := 3; c_idn := 0;
+              c_reuse := false; c_chk := false; c_force := false; c_issdue := false |} in [c; c].
 Theorem one_new_account_needs_no_fault_refuted :
   exists ls s es, run (init_state two_acct (fun _ => None)) ls = Some (s, es) /\
     (forall c, In c two_acct -> acct_cfg 7 3 c) /\
@@ -462,7 +464,32 @@ Qed.
     returned an account").  NOT in the overlap: [DelReg] / [DelKey] / the second attempt (only in
     Account.Model); [Crash] and [Reset] (only in Account.Model); the NewAccountFunc callback, context
     cancellation, panics, a failing Unlock, retries of a CA request (only in Issuance). *)
-Definition acfg (lk c : nat) : tcfg := TCfg (PAcct false) lk 0 c 0 false false false false.
+Definition acfg (lk c : nat) : tcfg :=
+  {| c_prog := PAcct false; c_lk := lk; c_pk := 0; c_vk := c; c_idn := 0;
+     c_reuse := false; c_chk := false; c_force := false; c_issdue := false |}.
+
+(** the program points of Account.Model in the overlap, as a type of THIS file: everything else of
+    [A.pc] (the order, the compare-and-delete path [DWantLock .. DUnlock] of f0aaa6b, whatever is
+    added later) is outside by the catch-all of [classify] *)
+Inductive ovk :=
+| VLoadReg (lkd : bool) | VLoadKey (lkd : bool) (r : nat) | VWantLock | VRegister
+| VStoreReg (a : nat) | VStoreKey (a : nat) | VRollback (a : nat) | VUnlock (res : option A.macct).
+Definition classify (ap : A.pc) : option ovk :=
+  match ap with
+  | A.LoadReg l => Some (VLoadReg l) | A.LoadKey l r => Some (VLoadKey l r)
+  | A.WantLock => Some VWantLock | A.Register => Some VRegister
+  | A.StoreReg a => Some (VStoreReg a) | A.StoreKey a => Some (VStoreKey a)
+  | A.Rollback a => Some (VRollback a) | A.Unlock res => Some (VUnlock res)
+  | _ => None
+  end.
+Definition of_ovk (k : ovk) : A.pc :=
+  match k with
+  | VLoadReg l => A.LoadReg l | VLoadKey l r => A.LoadKey l r | VWantLock => A.WantLock | VRegister => A.Register
+  | VStoreReg a => A.StoreReg a | VStoreKey a => A.StoreKey a | VRollback a => A.Rollback a | VUnlock res => A.Unlock res
+  end.
+Lemma classify_sound ap k : classify ap = Some k -> ap = of_ovk k.
+Proof. destruct ap; cbn; intros H; try discriminate H; injection H as <-; reflexivity. Qed.
+Definition overlap_pc (ap : A.pc) : bool := match classify ap with Some _ => true | None => false end.
 
 Definition pc_rel (ap : A.pc) (p : pc) : Prop :=
   match ap with
@@ -477,7 +504,7 @@ Definition pc_rel (ap : A.pc) (p : pc) : Prop :=
   | A.Unlock res => p = PUnlock (match res with Some _ => ROk | None => RErr end)
   | A.Order _ _ | A.Done (Some _) => p = PDone ROk
   | A.Done None => p = PDone RErr
-  | A.DelReg _ | A.DelKey _ => False
+  | _ => False
   end.
 
 (** the explicit translation: what one operation of an Account thread is in Issuance labels
@@ -502,11 +529,6 @@ Definition op_ops (lk c : nat) (ap : A.pc) (fault : bool) : list op :=
   | A.Unlock _ => [OUnlock lk]
   | _ => []
   end.
-Definition overlap_pc (ap : A.pc) : bool :=
-  match ap with
-  | A.LoadReg _ | A.LoadKey _ _ | A.WantLock | A.Register | A.StoreReg _ | A.StoreKey _ | A.Rollback _ | A.Unlock _ => true
-  | _ => false
-  end.
 
 Fixpoint tsteps (t : nat) (th : thread) (s : shared) (fl : list (Model.fault * bool)) : option (thread * shared * list ev) :=
   match fl with
@@ -523,7 +545,7 @@ Fixpoint tsteps (t : nat) (th : thread) (s : shared) (fl : list (Model.fault * b
     Account thread's CA, at the related pc, context not cancelled *)
 Definition Rth (lk : nat) (ath : A.thread) (th : thread) : Prop :=
   exists fl lkey lcrt nk nc seen rc p,
-    th = Thread (acfg lk (A.t_ca ath)) p OpAcct false fl lkey lcrt nk nc seen rc /\ pc_rel (A.t_pc ath) p.
+    th = {| cfg := acfg lk (A.t_ca ath); tpc := p; cur := OpAcct; canc := false; flt := fl; lkey := lkey; lcrt := lcrt; nk := nk; nc := nc; seen := seen; recd := rc |} /\ pc_rel (A.t_pc ath) p.
 
 (** the shared state: a file exists iff the slot holds an account; the lock tables agree *)
 Definition Rsto (sl : A.ca -> A.slot) (st : skey -> option value) : Prop :=
@@ -592,9 +614,12 @@ Proof.
   assert (Hself : forall s1 p1, A.t_ca (A.thr s1 t) = c -> exists ath, A.thr (A.set_pc s1 t p1) t = ath /\ A.t_ca ath = c /\ A.t_pc ath = p1)
     by (intros s1 p1 E; eexists; split; [reflexivity|]; cbn; rewrite AP.upd_eq; cbn; split; [exact E|reflexivity]).
   assert (Mk : forall ath flx rcx p1, A.t_ca ath = c -> pc_rel (A.t_pc ath) p1 ->
-             Rth lk ath (Thread (acfg lk c) p1 OpAcct false flx lkey lcrt nk nc seen rcx)).
+             Rth lk ath {| cfg := acfg lk c; tpc := p1; cur := OpAcct; canc := false; flt := flx; lkey := lkey; lcrt := lcrt; nk := nk; nc := nc; seen := seen; recd := rcx |}).
   { intros ath flx rcx p1 E R. exists flx, lkey, lcrt, nk, nc, seen, rcx, p1. rewrite E. split; [reflexivity|exact R]. }
-  destruct (A.t_pc (A.thr sA t)) as [|lkd|lkd r| | |a|a|a|res|m i|m|m|res] eqn:Epc; try discriminate Hov;
+  unfold overlap_pc in Hov. remember (A.t_pc (A.thr sA t)) as ap eqn:Eap in *.
+  destruct (classify ap) as [kk|] eqn:Ec; [|discriminate Hov]. apply classify_sound in Ec.
+  rewrite Ec in *. clear Ec. rename Eap into Epc. symmetry in Epc.
+  destruct kk as [lkd|lkd r| | |a|a|a|res]; cbn [of_ovk] in *;
     cbn [pc_rel] in Hpc; subst p; cbn [op_labels op_ops tsteps].
   - (* LoadReg *)
     destruct f.
@@ -675,7 +700,12 @@ Proof.
                        intros t2 Hne; rewrite Hfr by exact Hne; reflexivity]].
       fin.
   - (* Unlock *)
-    destruct f; [discriminate|]. injection Hop as <-. pose proof (Hul res eq_refl) as Hl.
+    destruct f; injection Hop as <-.
+    { (* a failed Unlock is logged and ignored by both models: the thread goes on, the lock stays *)
+      do 3 eexists. split; [reflexivity|]. split; [reflexivity|].
+      split; [|split; [split; assumption|intros t2 Hne; apply Hfr; exact Hne]].
+      fin. destruct res; reflexivity. }
+    pose proof (Hul res eq_refl) as Hl.
     unfold tstep. cbn -[lks lput A.set_pc A.thr A.set_lock]. cbn [cfg c_lk acfg]. rewrite Hlks, Hl. cbn -[lput A.set_pc A.thr A.set_lock]. rewrite Nat.eqb_refl. cbn -[lput A.set_pc A.thr A.set_lock].
     do 3 eexists. split; [reflexivity|]. split; [reflexivity|].
     split; [|split; [split; [exact Hsto|cbn [sh lks with_lks A.lock A.set_pc A.set_lock]; apply lput_eq]|
@@ -712,7 +742,7 @@ Qed.
 Definition RthG (lk : nat) (ath : A.thread) (th : thread) : Prop :=
   exists c, (A.t_pc ath <> A.Idle -> c = A.t_ca ath) /\
     exists fl lkey lcrt nk nc seen rc p,
-      th = Thread (acfg lk c) p OpAcct false fl lkey lcrt nk nc seen rc /\ pc_rel (A.t_pc ath) p.
+      th = {| cfg := acfg lk c; tpc := p; cur := OpAcct; canc := false; flt := fl; lkey := lkey; lcrt := lcrt; nk := nk; nc := nc; seen := seen; recd := rc |} /\ pc_rel (A.t_pc ath) p.
 Definition RelG (lk : nat) (sA : A.state) (sI : state) : Prop :=
   (forall t th, nth_error (thr sI) t = Some th -> RthG lk (A.thr sA t) th) /\ Rsh lk sA (sh sI).
 
@@ -726,13 +756,29 @@ Proof.
   - split; [|reflexivity]. intros c. cbn. rewrite !Hst. split; reflexivity.
 Qed.
 
+Lemma tsteps_cfg fl : forall t th sh th' sh' evs, tsteps t th sh fl = Some (th', sh', evs) -> cfg th' = cfg th.
+Proof.
+  induction fl as [|[f b] r IH]; intros t th sh th' sh' evs H.
+  - cbn in H. injection H as <- _ _. reflexivity.
+  - cbn [tsteps] in H. destruct (tstep t th sh f b) as [[[th1 s1] e]|] eqn:T; [|discriminate].
+    destruct (tsteps t th1 s1 r) as [[[th2 s2] es]|] eqn:R; [|discriminate]. injection H as <- _ _.
+    rewrite (IH _ _ _ _ _ _ R). exact (tstep_cfg _ _ _ _ _ _ _ _ T).
+Qed.
+
+(** the CAs of the calls ([cas]: thread t is a call for CA [nth t cas]) are fixed by the thread set *)
+Definition cas_of (sI : state) : list nat := map (fun th => c_vk (cfg th)) (thr sI).
+Lemma cas_of_upd sI t th th' sh' : nth_error (thr sI) t = Some th -> cfg th' = cfg th ->
+  cas_of (State (upd (thr sI) t th') sh') = cas_of sI.
+Proof.
+  intros Hn Hc. unfold cas_of. cbn [thr]. revert t Hn. induction (thr sI) as [|x l IH]; intros [|t] Hn; cbn in *; try discriminate.
+  - injection Hn as ->. rewrite Hc. reflexivity.
+  - rewrite (IH t Hn). reflexivity.
+Qed.
+
 (** which labels of Account.Model are in the overlap *)
 Definition overlap_label (sA : A.state) (sI : state) (l : A.label) : Prop :=
-  match l with
-  | A.Start t c => exists th, nth_error (thr sI) t = Some th /\ c_vk (cfg th) = c
-  | A.Op t f => overlap_pc (A.t_pc (A.thr sA t)) = true /\ exists th, nth_error (thr sI) t = Some th
-  | _ => False
-  end.
+  (exists t c th, l = A.Start t c /\ nth_error (thr sI) t = Some th /\ c_vk (cfg th) = c) \/
+  (exists t f th, l = A.Op t f /\ overlap_pc (A.t_pc (A.thr sA t)) = true /\ nth_error (thr sI) t = Some th).
 Definition label_ops (lk : nat) (sA : A.state) (l : A.label) : list op :=
   match l with
   | A.Op t f => op_ops lk (A.t_ca (A.thr sA t)) (A.t_pc (A.thr sA t)) f
@@ -746,72 +792,58 @@ Definition label_ops (lk : nat) (sA : A.state) (l : A.label) : list op :=
     reachable state of Account.Model) is what makes Issuance's owner check at Unlock succeed. *)
 Theorem account_step_simulated : forall lk sA sI l sA',
   RelG lk sA sI -> AP.I_lock sA -> overlap_label sA sI l -> A.step sA l = Some sA' ->
-  exists ls sI' evs, run sI ls = Some (sI', evs) /\ map e_op evs = label_ops lk sA l /\ RelG lk sA' sI'.
+  exists ls sI' evs, run sI ls = Some (sI', evs) /\ map e_op evs = label_ops lk sA l /\ RelG lk sA' sI' /\
+    cas_of sI' = cas_of sI.
 Proof.
-  intros lk sA sI l sA' [Hthr Hsh] HIl Hov Hs. destruct l as [t c|t f|t|c]; try contradiction.
+  intros lk sA sI l sA' [Hthr Hsh] HIl Hov Hs.
+  destruct Hov as [(t & c & th & -> & Hn & Hc)|(t & f & th & -> & Hovp & Hn)].
   - (* Start: a stutter step *)
-    destruct Hov as (th & Hn & Hc). cbn [A.step] in Hs.
+    cbn [A.step] in Hs.
     destruct (A.is_idle (A.t_pc (A.thr sA t))) eqn:Ei; [|discriminate]. injection Hs as <-.
-    exists [], sI, []. split; [reflexivity|]. split; [reflexivity|]. split; [|exact Hsh].
+    exists [], sI, []. split; [reflexivity|]. split; [reflexivity|]. split; [|reflexivity]. split; [|exact Hsh].
     intros t2 th2 H2. cbn [A.thr]. unfold A.upd. destruct (Nat.eqb_spec t2 t) as [->|Hne]; [|exact (Hthr _ _ H2)].
     rewrite Hn in H2. injection H2 as <-.
     destruct (Hthr _ _ Hn) as (c0 & _ & flx & lkey & lcrt & nk & nc & seen & rc & p & -> & Hp).
     cbn [cfg c_vk acfg] in Hc. subst c0. exists c. split; [reflexivity|].
     do 8 eexists. split; [reflexivity|]. destruct (A.t_pc (A.thr sA t)); try discriminate Ei. exact Hp.
   - (* Op *)
-    destruct Hov as (Hovp & th & Hn). cbn [A.step] in Hs.
+    cbn [A.step] in Hs.
     destruct (Hthr _ _ Hn) as (c0 & Hc0 & flx & lkey & lcrt & nk & nc & seen & rc & p & -> & Hp).
     assert (Hni : A.t_pc (A.thr sA t) <> A.Idle) by (intros E; rewrite E in Hovp; discriminate).
     rewrite (Hc0 Hni) in Hn.
-    assert (HR : Rth lk (A.thr sA t) (Thread (acfg lk (A.t_ca (A.thr sA t))) p OpAcct false flx lkey lcrt nk nc seen rc))
+    assert (HR : Rth lk (A.thr sA t) {| cfg := acfg lk (A.t_ca (A.thr sA t)); tpc := p; cur := OpAcct; canc := false; flt := flx; lkey := lkey; lcrt := lcrt; nk := nk; nc := nc; seen := seen; recd := rc |})
       by (do 8 eexists; split; [reflexivity|exact Hp]).
     assert (Hul : forall res, A.t_pc (A.thr sA t) = A.Unlock res -> A.lock sA = Some t).
     { intros res E. apply HIl. rewrite E. reflexivity. }
     destruct (account_op_simulated lk sA t f sA' _ (sh sI) Hs Hovp HR Hsh Hul) as (th' & sh' & evs & Hts & Hops & HR' & Hsh' & Hfr).
     exists (map (fun x => Label t (fst x) (snd x)) (op_labels (A.t_pc (A.thr sA t)) f)), (State (upd (thr sI) t th') sh'), evs.
-    split; [exact (tsteps_run _ sI t _ th' sh' evs Hn Hts)|]. split; [exact Hops|]. split; [|exact Hsh'].
+    split; [exact (tsteps_run _ sI t _ th' sh' evs Hn Hts)|]. split; [exact Hops|].
+    split; [|apply (cas_of_upd sI t _ th' sh' Hn); exact (tsteps_cfg _ _ _ _ _ _ _ Hts)]. split; [|exact Hsh'].
     intros t2 th2 H2. cbn [thr] in H2. destruct (Nat.eq_dec t2 t) as [->|Hne].
     + rewrite nth_upd_eq in H2 by (apply nth_error_Some; congruence). injection H2 as <-.
       exists (A.t_ca (A.thr sA' t)). split; [reflexivity|]. exact HR'.
     + rewrite nth_upd_neq in H2 by congruence. rewrite (Hfr t2 Hne). exact (Hthr _ _ H2).
 Qed.
 
-(** the hypotheses are satisfiable: two instances for CA 3 under lock key 7; the first call starts and
-    performs its first Load; related states all along *)
+(** the hypotheses are satisfiable: two instances for CA 3 under lock key 7; the first call starts;
+    (a longer history, with a fault: [ex_account_history] below) *)
 Example ex_account_simulated :
   let sI0 := init_state [acfg 7 3; acfg 7 3] (fun _ => None) in
   RelG 7 A.init sI0 /\ AP.I_lock A.init /\ overlap_label A.init sI0 (A.Start 0 3) /\
-  exists sA1, A.step A.init (A.Start 0 3) = Some sA1 /\ RelG 7 sA1 sI0 /\ AP.I_lock sA1 /\
-    overlap_label sA1 sI0 (A.Op 0 false) /\
-    exists sA2 ls sI2 evs, A.step sA1 (A.Op 0 false) = Some sA2 /\ run sI0 ls = Some (sI2, evs) /\
-      map e_op evs = [OLoad (SK 3 KMeta)] /\ RelG 7 sA2 sI2 /\ A.t_pc (A.thr sA2 0) = A.WantLock.
+  exists sA1 ls sI1 evs, A.step A.init (A.Start 0 3) = Some sA1 /\ run sI0 ls = Some (sI1, evs) /\
+    RelG 7 sA1 sI1 /\ A.t_pc (A.thr sA1 0) = A.LoadReg false.
 Proof.
   cbn zeta.
   assert (R0 : RelG 7 A.init (init_state [acfg 7 3; acfg 7 3] (fun _ => None))).
   { apply RelG_init; [|reflexivity]. intros c [<-|[<-|[]]]; exists 3; reflexivity. }
   assert (I0 : AP.I_lock A.init) by (intros t H; discriminate).
-  assert (O0 : overlap_label A.init (init_state [acfg 7 3; acfg 7 3] (fun _ => None)) (A.Start 0 3))
-    by (eexists; split; reflexivity).
+  assert (O0 : overlap_label A.init (init_state [acfg 7 3; acfg 7 3] (fun _ => None)) (A.Start 0 3)).
+  { left. exists 0, 3. eexists. split; [reflexivity|]. split; reflexivity. }
   split; [exact R0|]. split; [exact I0|]. split; [exact O0|].
-  set (sA1 := A.State (A.slots A.init) (A.created A.init) (A.forgotten A.init) (A.lock A.init)
-                   (A.upd (A.thr A.init) 0 (A.Thread 3 (A.LoadReg false) 0)) (A.fsaves A.init) (A.crashes A.init)
-                   (A.deletes A.init) (A.resets A.init)).
-  assert (S1 : A.step A.init (A.Start 0 3) = Some sA1) by reflexivity.
-  exists sA1. split; [exact S1|].
-  assert (I1 : AP.I_lock sA1) by (eapply AP.I_lock_step; eassumption).
-  assert (R1' : RelG 7 sA1 (init_state [acfg 7 3; acfg 7 3] (fun _ => None))).
-  { split; [|split; [intros c; split; reflexivity|reflexivity]].
-    intros [|[|t]] th H; cbn in H; [injection H as <-|injection H as <-|destruct t; discriminate].
-    - exists 3. split; [reflexivity|]. do 8 eexists. split; reflexivity.
-    - exists 3. split; [intros X; exfalso; apply X; reflexivity|]. do 8 eexists. split; reflexivity. }
-  split; [exact R1'|]. split; [exact I1|].
-  assert (O1 : overlap_label sA1 (init_state [acfg 7 3; acfg 7 3] (fun _ => None)) (A.Op 0 false))
-    by (split; [reflexivity|eexists; reflexivity]).
-  split; [exact O1|].
-  match goal with |- exists sA2 ls sI2 evs, A.step ?s ?l = _ /\ _ => destruct (A.step s l) as [sA2|] eqn:S2; [|discriminate] end.
-  destruct (account_step_simulated 7 _ _ _ _ R1' I1 O1 S2) as (ls2 & sI2 & evs2 & Hr2 & Hops2 & R2).
-  exists sA2, ls2, sI2, evs2. split; [reflexivity|]. split; [exact Hr2|]. split; [exact Hops2|]. split; [exact R2|].
-  cbn in S2. injection S2 as <-. reflexivity.
+  destruct (A.step A.init (A.Start 0 3)) as [sA1|] eqn:S1; [|discriminate].
+  destruct (account_step_simulated 7 _ _ _ _ R0 I0 O0 S1) as (ls & sI1 & evs & Hr & _ & R1 & _).
+  exists sA1, ls, sI1, evs. split; [reflexivity|]. split; [exact Hr|]. split; [exact R1|].
+  cbn in S1. injection S1 as <-. reflexivity.
 Qed.
 
 (** ** whole histories *)
@@ -825,23 +857,9 @@ Proof.
     rewrite (IH _ _ _ _ _ _ R H2). reflexivity.
 Qed.
 
-Lemma tsteps_cfg fl : forall t th sh th' sh' evs, tsteps t th sh fl = Some (th', sh', evs) -> cfg th' = cfg th.
-Proof.
-  induction fl as [|[f b] r IH]; intros t th sh th' sh' evs H.
-  - cbn in H. injection H as <- _ _. reflexivity.
-  - cbn [tsteps] in H. destruct (tstep t th sh f b) as [[[th1 s1] e]|] eqn:T; [|discriminate].
-    destruct (tsteps t th1 s1 r) as [[[th2 s2] es]|] eqn:R; [|discriminate]. injection H as <- _ _.
-    rewrite (IH _ _ _ _ _ _ R). exact (tstep_cfg _ _ _ _ _ _ _ _ T).
-Qed.
-
-(** the CAs of the calls ([cas]: thread t is a call for CA [nth t cas]) are fixed by the thread set *)
-Definition cas_of (sI : state) : list nat := map (fun th => c_vk (cfg th)) (thr sI).
 Definition overlapS (cas : list nat) (sA : A.state) (l : A.label) : Prop :=
-  match l with
-  | A.Start t c => nth_error cas t = Some c
-  | A.Op t f => overlap_pc (A.t_pc (A.thr sA t)) = true /\ t < length cas
-  | _ => False
-  end.
+  (exists t c, l = A.Start t c /\ nth_error cas t = Some c) \/
+  (exists t f, l = A.Op t f /\ overlap_pc (A.t_pc (A.thr sA t)) = true /\ t < length cas).
 Fixpoint ovrun (cas : list nat) (sA : A.state) (ls : list A.label) : Prop :=
   match ls with
   | [] => True
@@ -855,19 +873,11 @@ Fixpoint run_ops (lk : nat) (sA : A.state) (ls : list A.label) : list op :=
 
 Lemma overlapS_label cas sA sI l : cas_of sI = cas -> overlapS cas sA l -> overlap_label sA sI l.
 Proof.
-  intros Hc Ho. destruct l as [t c|t f|t|c]; cbn in *; try contradiction.
-  - rewrite <- Hc in Ho. unfold cas_of in Ho. rewrite nth_error_map in Ho.
-    destruct (nth_error (thr sI) t) as [th|]; [|discriminate]. cbn in Ho. injection Ho as Ho. eauto.
-  - destruct Ho as [Hp Hl]. split; [exact Hp|]. rewrite <- Hc in Hl. unfold cas_of in Hl. rewrite map_length in Hl.
-    destruct (nth_error (thr sI) t) as [th|] eqn:E; [eauto|]. apply nth_error_None in E. lia.
-Qed.
-
-Lemma cas_of_upd sI t th th' sh' : nth_error (thr sI) t = Some th -> cfg th' = cfg th ->
-  cas_of (State (upd (thr sI) t th') sh') = cas_of sI.
-Proof.
-  intros Hn Hc. unfold cas_of. cbn [thr]. revert t Hn. induction (thr sI) as [|x l IH]; intros [|t] Hn; cbn in *; try discriminate.
-  - injection Hn as ->. rewrite Hc. reflexivity.
-  - rewrite (IH t Hn). reflexivity.
+  intros Hc [(t & c & -> & Ho)|(t & f & -> & Hp & Hl)].
+  - left. rewrite <- Hc in Ho. unfold cas_of in Ho. rewrite nth_error_map in Ho.
+    destruct (nth_error (thr sI) t) as [th|] eqn:E; [|discriminate]. cbn in Ho. injection Ho as Ho. exists t, c, th. auto.
+  - right. rewrite <- Hc in Hl. unfold cas_of in Hl. rewrite map_length in Hl.
+    destruct (nth_error (thr sI) t) as [th|] eqn:E; [exists t, f, th; auto|]. apply nth_error_None in E. lia.
 Qed.
 
 (** AGREEMENT (history level): every history of Account.Model that stays in the overlap (calls of
@@ -884,41 +894,39 @@ Proof.
   - cbn [A.run] in Hrun. cbn [ovrun run_ops] in *. destruct Hov as [Ho Hov].
     destruct (A.step sA l) as [s1|] eqn:S; [|discriminate].
     pose proof (overlapS_label cas sA sI l Hc Ho) as Hol.
-    assert (Hstep : exists ls1 sI1 evs1, run sI ls1 = Some (sI1, evs1) /\ map e_op evs1 = label_ops lk sA l /\
-                      RelG lk s1 sI1 /\ cas_of sI1 = cas).
-    { destruct l as [t c|t f|t|c]; try contradiction.
-      - destruct (account_step_simulated lk sA sI _ s1 HR HI Hol S) as (ls1 & sI1 & evs1 & H1 & H2 & H3).
-        (* Start: the LTS does not move *)
-        exists [], sI, []. split; [reflexivity|]. split; [reflexivity|]. split; [|exact Hc].
-        destruct HR as [Hthr Hsh]. destruct Hol as (th & Hn & Hcv). cbn [A.step] in S.
-        destruct (A.is_idle (A.t_pc (A.thr sA t))) eqn:Ei; [|discriminate]. injection S as <-.
-        split; [|exact Hsh]. intros t2 th2 H2'. cbn [A.thr]. unfold A.upd.
-        destruct (Nat.eqb_spec t2 t) as [->|Hne]; [|exact (Hthr _ _ H2')].
-        rewrite Hn in H2'. injection H2' as <-.
-        destruct (Hthr _ _ Hn) as (c0 & _ & flx & lkey & lcrt & nk & nc & seen & rc & p & -> & Hp).
-        cbn [cfg c_vk acfg] in Hcv. subst c0. exists c. split; [reflexivity|].
-        do 8 eexists. split; [reflexivity|]. destruct (A.t_pc (A.thr sA t)); try discriminate Ei. exact Hp.
-      - destruct Hol as (Hovp & th & Hn). destruct HR as [Hthr Hsh]. cbn [A.step] in S.
-        destruct (Hthr _ _ Hn) as (c0 & Hc0 & flx & lkey & lcrt & nk & nc & seen & rc & p & -> & Hp).
-        assert (Hni : A.t_pc (A.thr sA t) <> A.Idle) by (intros E; rewrite E in Hovp; discriminate).
-        rewrite (Hc0 Hni) in Hn.
-        assert (HRt : Rth lk (A.thr sA t) (Thread (acfg lk (A.t_ca (A.thr sA t))) p OpAcct false flx lkey lcrt nk nc seen rc))
-          by (do 8 eexists; split; [reflexivity|exact Hp]).
-        assert (Hul : forall res, A.t_pc (A.thr sA t) = A.Unlock res -> A.lock sA = Some t).
-        { intros res E. apply HI. rewrite E. reflexivity. }
-        destruct (account_op_simulated lk sA t f s1 _ (sh sI) S Hovp HRt Hsh Hul) as (th' & sh' & evs & Hts & Hops & HR' & Hsh' & Hfr).
-        exists (map (fun x => Label t (fst x) (snd x)) (op_labels (A.t_pc (A.thr sA t)) f)), (State (upd (thr sI) t th') sh'), evs.
-        split; [exact (tsteps_run _ sI t _ th' sh' evs Hn Hts)|]. split; [exact Hops|]. split.
-        + split; [|exact Hsh']. intros t2 th2 H2'. cbn [thr] in H2'. destruct (Nat.eq_dec t2 t) as [->|Hne].
-          * rewrite nth_upd_eq in H2' by (apply nth_error_Some; congruence). injection H2' as <-.
-            exists (A.t_ca (A.thr s1 t)). split; [reflexivity|]. exact HR'.
-          * rewrite nth_upd_neq in H2' by congruence. rewrite (Hfr t2 Hne). exact (Hthr _ _ H2').
-        + rewrite <- Hc. apply (cas_of_upd sI t _ th' sh' Hn). exact (tsteps_cfg _ _ _ _ _ _ _ Hts). }
-    destruct Hstep as (ls1 & sI1 & evs1 & H1 & H2 & H3 & H4).
+    destruct (account_step_simulated lk sA sI l s1 HR HI Hol S) as (ls1 & sI1 & evs1 & H1 & H2 & H3 & H4').
+    assert (H4 : cas_of sI1 = cas) by (rewrite H4'; exact Hc).
     pose proof (AP.I_lock_step _ _ _ HI S) as HI1.
     destruct (IH s1 sI1 sA' H3 H4 HI1 Hov Hrun) as (ls2 & sI2 & evs2 & G1 & G2 & G3 & G4 & G5).
     exists (ls1 ++ ls2), sI2, (evs1 ++ evs2). split; [exact (run_app_some _ _ _ _ _ _ _ H1 G1)|].
     split; [rewrite map_app, H2, G2; reflexivity|]. split; [exact G3|split; [exact G4|exact G5]].
+Qed.
+
+(** a checker for [ovrun] (used by the example) *)
+Definition overlapSb (cas : list nat) (sA : A.state) (l : A.label) : bool :=
+  match l with
+  | A.Start t c => match nth_error cas t with Some c' => Nat.eqb c' c | None => false end
+  | A.Op t f => overlap_pc (A.t_pc (A.thr sA t)) && (t <? length cas)
+  | _ => false
+  end.
+Fixpoint ovrunb (cas : list nat) (sA : A.state) (ls : list A.label) : bool :=
+  match ls with
+  | [] => true
+  | l :: r => overlapSb cas sA l && match A.step sA l with Some s1 => ovrunb cas s1 r | None => true end
+  end.
+Lemma overlapSb_sound cas sA l : overlapSb cas sA l = true -> overlapS cas sA l.
+Proof.
+  unfold overlapSb. destruct l; intros H; try discriminate H.
+  - left. do 2 eexists. split; [reflexivity|]. destruct (nth_error cas _) as [c'|]; [|discriminate H].
+    apply Nat.eqb_eq in H. subst. reflexivity.
+  - right. do 2 eexists. split; [reflexivity|]. apply andb_true_iff in H. destruct H as [H1 H2].
+    split; [exact H1|apply Nat.ltb_lt; exact H2].
+Qed.
+Lemma ovrunb_sound cas ls : forall sA, ovrunb cas sA ls = true -> ovrun cas sA ls.
+Proof.
+  induction ls as [|l r IH]; intros sA H; [exact I|]. cbn [ovrunb ovrun] in *.
+  apply andb_true_iff in H. destruct H as [H1 H2]. split; [apply overlapSb_sound; exact H1|].
+  destruct (A.step sA l); [apply IH; exact H2|exact I].
 Qed.
 
 Example ex_account_history :
@@ -935,7 +943,7 @@ Proof.
   cbn zeta.
   assert (Ov : ovrun [3; 3] A.init [A.Start 0 3; A.Op 0 false; A.Start 1 3; A.Op 0 false; A.Op 1 false; A.Op 0 false; A.Op 0 false;
              A.Op 0 true; A.Op 0 false; A.Op 1 false; A.Op 1 false; A.Op 1 false]).
-  { cbn. repeat split; lia. }
+  { apply ovrunb_sound. vm_compute. reflexivity. }
   split; [exact Ov|]. split; [reflexivity|]. split; [vm_compute; reflexivity|].
   assert (R0 : RelG 7 A.init (init_state [acfg 7 3; acfg 7 3] (fun _ => None))).
   { apply RelG_init; [|reflexivity]. intros c [<-|[<-|[]]]; exists 3; reflexivity. }
